@@ -190,3 +190,219 @@ Proof.
   rewrite IH, log_step_details, <- app_assoc. reflexivity.
 Qed.
 End WriterProofs.
+
+(* ================================================================ time zones: Location of Entry.Timestamp *)
+Lemma with_ts_id e : with_ts e (e_ts e) = e.
+Proof. destruct e; reflexivity. Qed.
+
+Lemma t_wall_utc t : t_wall (t_utc t) = t_inst t.
+Proof. unfold t_wall, t_utc. cbn. lia. Qed.
+
+(* the three consumers of the timestamp see the instant only *)
+Lemma hash_input_go_inst e off : hash_input_go {| g_e := e; g_off := off |} = hash_input e.
+Proof. unfold hash_input_go, g_time, t_unixnano. cbn. rewrite with_ts_id. reflexivity. Qed.
+Lemma enc_bin_go_inst e off : enc_bin_go {| g_e := e; g_off := off |} = enc_bin e.
+Proof. unfold enc_bin_go, g_time, t_unixnano. cbn. rewrite with_ts_id. reflexivity. Qed.
+Lemma enc_json_go_inst e off : enc_json_go {| g_e := e; g_off := off |} = enc_json e.
+Proof. unfold enc_json_go. rewrite t_wall_utc. unfold g_time. cbn. rewrite with_ts_id. reflexivity. Qed.
+
+Lemma dec_json_go_enc e off : wf_json e ->
+  dec_json_go (enc_json_go {| g_e := e; g_off := off |}) = Some {| g_e := e; g_off := 0%Z |}.
+Proof.
+  intros Hwf. rewrite enc_json_go_inst. unfold dec_json_go. rewrite dec_json_enc_json by exact Hwf.
+  unfold t_parse_z. cbn [t_inst t_off]. rewrite with_ts_id. reflexivity.
+Qed.
+
+Lemma dec_bin_go_enc zone e off bs r : wf_bin e -> enc_bin_go {| g_e := e; g_off := off |} = Some bs ->
+  dec_bin_go zone (bs ++ r) = ROk {| g_e := e; g_off := zone (e_ts e) |} r.
+Proof.
+  intros Hwf Henc. rewrite enc_bin_go_inst in Henc. unfold dec_bin_go. rewrite (dec_bin_enc_bin e bs r Hwf Henc). reflexivity.
+Qed.
+
+(* whole files, every assignment of Locations to the entries' timestamps *)
+Lemma json_file_any_zone : forall L offs, Forall wf_json L ->
+  mapM dec_json_go (map enc_json_go (zipg L offs)) = Some (map (fun e => {| g_e := e; g_off := 0%Z |}) L).
+Proof.
+  induction L as [|e L IH]; intros offs Hwf; [reflexivity|]. inversion Hwf; subst.
+  destruct offs as [|o offs]; cbn [zipg map mapM]; rewrite dec_json_go_enc by assumption; rewrite IH by assumption; reflexivity.
+Qed.
+
+Lemma enc_bin_some e : wf_bin e -> exists bs, enc_bin e = Some bs.
+Proof.
+  intros ((Hv & Hts & Hty & Hdet) & Hp & Hh & Hs & _). unfold enc_bin.
+  assert (exists dp, details_bin_part (e_ver e) (e_det e) = Some dp) as [dp ->].
+  { destruct (e_det e) as [|l|root sE sM|]; cbn [details_bin_part wf_details] in *; try (eexists; reflexivity).
+    destruct Hdet as (_ & _ & -> & ->). rewrite !N.eqb_refl. eexists; reflexivity. }
+  rewrite Hp, Hh, Hs, !N.eqb_refl. eexists; reflexivity.
+Qed.
+
+Lemma bin_file_any_zone : forall L offs, Forall wf_bin L ->
+  exists chunks, mapM enc_bin_go (zipg L offs) = Some chunks /\
+                 Forall2 (fun e c => wf_bin e /\ enc_bin e = Some c) L chunks.
+Proof.
+  induction L as [|e L IH]; intros offs Hwf; [exists []; split; [reflexivity | constructor]|].
+  inversion Hwf; subst. destruct (enc_bin_some e H1) as [bs Hbs].
+  destruct offs as [|o offs]; cbn [zipg mapM]; rewrite enc_bin_go_inst, Hbs;
+    [destruct (IH [] H2) as (chunks & -> & HF) | destruct (IH offs H2) as (chunks & -> & HF)];
+    exists (bs :: chunks); (split; [reflexivity | constructor; [split; assumption | exact HF]]).
+Qed.
+
+Lemma dec_all_go_file zone L chunks fuel :
+  Forall2 (fun e c => wf_bin e /\ enc_bin e = Some c) L chunks -> (length L < fuel)%nat ->
+  dec_all_go zone fuel (concat chunks) = (map (fun e => {| g_e := e; g_off := zone (e_ts e) |}) L, None).
+Proof.
+  intros HF Hf. unfold dec_all_go. rewrite (dec_all_concat L chunks [] fuel HF Hf). reflexivity.
+Qed.
+
+(* ---- the writer's entries are well-formed for both serializers *)
+Section WriterWf.
+Variable H : bytes -> bytes.
+Variables signE signM : bytes -> bytes.
+Variable block : N.
+Hypothesis HlenH : forall x, lenN (H x) = sha_size.
+Hypothesis HlenE : forall h, lenN (signE h) = ed_sig_size.
+Hypothesis HlenM : forall h, lenN (signM h) = mldsa_sig_size.
+Notation mk := (mk_entry H signE).
+
+Definition len64 (h : bytes) : Prop := lenN h = sha_size.
+
+Lemma merkle_level_len l : Forall len64 (merkle_level H l).
+Proof.
+  assert (forall n l, (length l <= n)%nat -> Forall len64 (merkle_level H l)) as G.
+  { induction n as [|n IH]; intros l0 Hl.
+    - destruct l0; [constructor | cbn in Hl; lia].
+    - destruct l0 as [|a [|b r]]; cbn [merkle_level].
+      + constructor.
+      + constructor; [apply HlenH | constructor].
+      + constructor; [apply HlenH|]. apply IH. cbn in Hl. lia. }
+  apply (G (length l)). lia.
+Qed.
+
+Lemma merkle_loop_len : forall fuel l, Forall len64 l -> lenN (merkle_loop H fuel l) <= sha_size.
+Proof.
+  induction fuel as [|f IH]; intros l Hl.
+  - destruct l as [|a [|b r]]; cbn; try (unfold sha_size; lia). inversion Hl; subst. unfold len64 in *. lia.
+  - destruct l as [|a [|b r]]; cbn [merkle_loop]; try (cbn; unfold sha_size; lia).
+    + inversion Hl; subst. unfold len64 in *. lia.
+    + apply IH. apply merkle_level_len.
+Qed.
+
+Lemma merkle_root_ok l : Forall len64 l -> str_ok (merkle_root H l).
+Proof. intros Hl. unfold str_ok, merkle_root. pose proof (merkle_loop_len (length l) l Hl). unfold sha_size in *. lia. Qed.
+
+Lemma str_ok_small s : lenN s < 64 -> str_ok s.
+Proof. unfold str_ok. lia. Qed.
+
+Lemma mk_wf_bin ts ty det prev :
+  i64_ok ts -> str_ok ty -> wf_details 3 ty det -> lenN prev = sha_size -> wf_bin (mk ts ty det prev).
+Proof.
+  intros Hts Hty Hdet Hp. unfold wf_bin, wf_hash, mk_entry. cbn [e_ver e_ts e_type e_det e_prev e_hash e_sig].
+  repeat split; try assumption; try apply HlenH; try apply HlenE; try (unfold i64_ok in Hts; lia).
+Qed.
+
+Definition call_ok (c : call) : Prop := match c with (ts, tsg, d) => i64_ok ts /\ i64_ok tsg /\ logd_ok d end.
+Definition wwf (w : wstate) : Prop := len64 (w_last w) /\ Forall len64 (w_buf w) /\ Forall wf_bin (w_out w).
+
+Lemma log_step_wwf w ts tsg d : wwf w -> call_ok (ts, tsg, d) -> wwf (log_step H signE signM block w ts tsg d).
+Proof.
+  intros (Hl & Hb & Ho) (Hts & Htsg & Hd). unfold log_step.
+  set (e := mk ts t_log (DLog d) (w_last w)).
+  assert (wf_bin e) as We.
+  { apply mk_wf_bin; try assumption; [apply str_ok_small; cbn; lia|]. cbn [wf_details]. split; [reflexivity | split; [exact Hd | intros; lia]]. }
+  assert (len64 (e_hash e)) as Hhe by (apply HlenH).
+  assert (Forall len64 (w_buf w ++ [e_hash e])) as Hb' by (apply Forall_app; split; [assumption | constructor; [assumption | constructor]]).
+  cbn [w_buf w_last w_out]. destruct (block <=? _).
+  - unfold emit_grounding. cbn [w_buf w_last w_out].
+    set (root := merkle_root H (w_buf w ++ [e_hash e])).
+    set (g := mk tsg t_grounding (DGround root (signE root) (signM root)) (e_hash e)).
+    assert (wf_bin g) as Wg.
+    { apply mk_wf_bin; try assumption; [apply str_ok_small; cbn; lia|]. cbn [wf_details].
+      repeat split; [apply merkle_root_ok; exact Hb' | apply HlenE | apply HlenM]. }
+    repeat split; cbn [w_buf w_last w_out]; [apply HlenH | constructor |].
+    apply Forall_app; split; [apply Forall_app; split; [assumption | constructor; [assumption | constructor]] | constructor; [assumption | constructor]].
+  - repeat split; cbn [w_buf w_last w_out]; try assumption.
+    apply Forall_app; split; [assumption | constructor; [assumption | constructor]].
+Qed.
+
+Lemma run_calls_wwf : forall cs w, wwf w -> Forall call_ok cs -> wwf (run_calls H signE signM block w cs).
+Proof.
+  induction cs as [|[[ts tsg] d] cs IH]; intros w Hw Hc; [exact Hw|]. inversion Hc; subst.
+  cbn [run_calls fold_left]. apply IH; [apply log_step_wwf; assumption | assumption].
+Qed.
+
+Lemma new_writer_wwf ts : i64_ok ts -> wwf (new_writer H signE [] [] ts).
+Proof.
+  intros Hts. unfold new_writer. cbn [all_zero forallb]. repeat split; cbn [w_last w_buf w_out]; [apply HlenH | constructor |].
+  constructor; [|constructor]. apply mk_wf_bin; [assumption | apply str_ok_small; cbn; lia | reflexivity | apply HlenH].
+Qed.
+
+Lemma writer_wf_bin ts cs : i64_ok ts -> Forall call_ok cs ->
+  Forall wf_bin (w_out (run_calls H signE signM block (new_writer H signE [] [] ts) cs)).
+Proof. intros Hts Hc. apply (run_calls_wwf cs _ (new_writer_wwf ts Hts) Hc). Qed.
+End WriterWf.
+
+(* wf_json needs no ranges: every entry the writer makes has details matching its type and version 3 *)
+Lemma writer_wf_json H signE signM block : forall cs w, Forall wf_json (w_out w) ->
+  Forall wf_json (w_out (run_calls H signE signM block w cs)).
+Proof.
+  induction cs as [|[[ts tsg] d] cs IH]; intros w Hw; [exact Hw|]. cbn [run_calls fold_left]. apply IH.
+  unfold log_step. cbn [w_buf w_last w_out].
+  assert (forall ts prev, wf_json (mk_entry H signE ts t_log (DLog d) prev)) as Wl.
+  { intros. unfold wf_json, mk_entry. cbn. split; [reflexivity | intros; lia]. }
+  assert (forall ts r a b prev, wf_json (mk_entry H signE ts t_grounding (DGround r a b) prev)) as Wg.
+  { intros. unfold wf_json, mk_entry. cbn. reflexivity. }
+  destruct (block <=? _); [unfold emit_grounding|]; cbn [w_out w_buf w_last];
+    repeat (apply Forall_app; split); try assumption; repeat (constructor; try apply Wl; try apply Wg).
+Qed.
+
+Lemma new_writer_wf_json H signE ts last buf : Forall wf_json (w_out (new_writer H signE last buf ts)).
+Proof. unfold new_writer. destruct (all_zero last); cbn [w_out]; repeat constructor. Qed.
+
+(* ---- composed statements for Properties/C26.v *)
+Lemma map_g_e_const (f : entry -> Z) L : map g_e (map (fun e => {| g_e := e; g_off := f e |}) L) = L.
+Proof. induction L as [|e L IH]; cbn; [reflexivity | rewrite IH; reflexivity]. Qed.
+
+Lemma written_log_any_zone_stmt :
+  forall (H : bytes -> bytes) (signE signM : bytes -> bytes) (vE vM : bytes -> bytes -> bool)
+         (useE useM : bool) (block : N),
+  (forall h, vE h (signE h) = true) -> (forall h, vM h (signM h) = true) ->
+  (forall x, lenN (H x) = sha_size) ->
+  (forall h, lenN (signE h) = ed_sig_size) -> (forall h, lenN (signM h) = mldsa_sig_size) -> 0 < block ->
+  forall (ts : Z) (calls : list call), i64_ok ts -> Forall call_ok calls ->
+  let L := w_out (run_calls H signE signM block (new_writer H signE [] [] ts) calls) in
+  forall (offs : list Z) (zone : Z -> Z) (fuel : nat), (length L < fuel)%nat ->
+  (exists gs, mapM dec_json_go (map enc_json_go (zipg L offs)) = Some gs /\ map g_e gs = L) /\
+  (exists chunks gs, mapM enc_bin_go (zipg L offs) = Some chunks /\
+                     dec_all_go zone fuel (concat chunks) = (gs, None) /\ map g_e gs = L) /\
+  accepted H vE vM useE useM block L = true.
+Proof.
+  intros H signE signM vE vM useE useM block A1 A2 AH A3 A4 A5 ts calls Hts Hc L offs zone fuel Hf.
+  split; [|split].
+  - eexists. split; [apply json_file_any_zone | apply (map_g_e_const (fun _ => 0%Z))].
+    apply writer_wf_json. apply new_writer_wf_json.
+  - pose proof (writer_wf_bin H signE signM block AH A3 A4 ts calls Hts Hc) as Wb. fold L in Wb.
+    destruct (bin_file_any_zone L offs Wb) as (chunks & Hm & HF).
+    exists chunks. eexists. split; [exact Hm|]. split; [apply (dec_all_go_file zone L chunks fuel HF Hf)|].
+    apply (map_g_e_const (fun e => zone (e_ts e))).
+  - apply (writer_accepted_stmt H signE signM vE vM useE useM block A1 A2 A3 A4 A5).
+Qed.
+
+Lemma restart_any_zone_stmt :
+  forall (H : bytes -> bytes) (signE signM : bytes -> bytes) (vE vM : bytes -> bytes -> bool)
+         (useE useM : bool) (block : N),
+  (forall h, vE h (signE h) = true) -> (forall h, vM h (signM h) = true) ->
+  (forall h, lenN (signE h) = ed_sig_size) -> (forall h, lenN (signM h) = mldsa_sig_size) -> 0 < block ->
+  forall (L0 : list entry) (st0 : vstate) (ts : Z) (calls : list call),
+  Forall wf_json L0 ->
+  validate_from H vE vM useE useM block init_state L0 = VOk st0 -> L0 <> [] ->
+  all_zero (v_prev st0) = false -> lenL (v_buf st0) < block ->
+  let L := L0 ++ w_out (run_calls H signE signM block (new_writer H signE (v_prev st0) (v_buf st0) ts) calls) in
+  forall offs : list Z,
+  (exists gs, mapM dec_json_go (map enc_json_go (zipg L offs)) = Some gs /\ map g_e gs = L) /\
+  accepted H vE vM useE useM block L = true.
+Proof.
+  intros H signE signM vE vM useE useM block A1 A2 A3 A4 A5 L0 st0 ts calls W0 Hv Hne Hz Hl L offs. split.
+  - eexists. split; [apply json_file_any_zone | apply (map_g_e_const (fun _ => 0%Z))].
+    apply Forall_app; split; [exact W0|]. apply writer_wf_json. apply new_writer_wf_json.
+  - apply (restart_accepted_stmt H signE signM vE vM useE useM block A1 A2 A3 A4 A5 L0 st0 ts calls Hv Hne Hz Hl).
+Qed.
